@@ -73,6 +73,7 @@ def _run_case(args):
         out["samples"] = ex.samples[:3]
         out["notes"] = ex.notes
         out["transcript"] = ex.transcript
+        out["stopped_early"] = ex.stopped_early
         # replay each counterexample concretely on the real code
         seen = set()
         for cex in ex.cexs:
@@ -252,7 +253,7 @@ def finish(mod, prop, tier, seed, results, wall, extra_cov=None, extra_errors=No
         "engine_decisions": stats["decisions"],
         "traces_validated_against_impl": stats["replayed"],
         "samples": samples,
-        "exhaustive": not errors,
+        "exhaustive": not errors and not any(r.get("stopped_early") for r in results),
         "cases": len(results),
         "queries": {"feasibility": stats["q_feas"], "assertion": stats["q_assert"],
                     "concretization": stats["q_conc"]},
